@@ -1,4 +1,5 @@
 import abc
+import functools
 import torch
 
 from ...utils.user_fun import DomainUserFunction, UserFunction
@@ -24,6 +25,30 @@ class Domain:
         else:
             self.dim = dim
         self._user_volume = None
+
+    def __init_subclass__(cls, **kwargs):
+        # A volume given by the user (set_volume) belongs to the domain and has to
+        # survive a partial evaluation, therefore the __call__ of every
+        # domain class hands it over to the evaluated domain.
+        super().__init_subclass__(**kwargs)
+        call = cls.__dict__.get("__call__")
+        if call is not None:
+
+            @functools.wraps(call)
+            def call_and_keep_user_volume(self, **data):
+                new_domain = call(self, **data)
+                if (
+                    self._user_volume is not None
+                    and isinstance(new_domain, Domain)
+                    and new_domain is not self
+                    and new_domain._user_volume is None
+                ):
+                    new_domain.set_volume(
+                        self._user_volume.partially_evaluate(**data)
+                    )
+                return new_domain
+
+            cls.__call__ = call_and_keep_user_volume
 
     def set_necessary_variables(self, *domain_params):
         """Registers the variables/spaces that this domain needs to be
